@@ -121,6 +121,11 @@ var augCounter int
 // if-feature lists).
 var AugmentIfFeatures bool
 
+var augMark int
+
+// AugmentExtras: AddAugments may put when, status, reference and extension statements on an augment.
+var AugmentExtras bool
+
 // augContent draws the nodes an augment adds to a target of the given kind.
 func augContent(t *rapid.T, set *ymodel.Set, from *ymodel.Module, tg Target, tag string) []*ymodel.Node {
 	var nodes []*ymodel.Node
@@ -255,6 +260,12 @@ func AddAugments(t *rapid.T, set *ymodel.Set, min, max int) map[string]int {
 		if AugmentIfFeatures && rapid.IntRange(0, 3).Draw(t, "augment-if-feature") == 0 {
 			a.IfFeatures = []string{from.FeatureName(8)}
 			labels["augment/if-feature"]++
+		}
+		if AugmentExtras && rapid.IntRange(0, 3).Draw(t, "augment-extras") == 0 {
+			a.Extras = ymodel.DrawExtras("augment", from.ExtKeyword(),
+				func(l string, n int) int { return rapid.IntRange(0, n-1).Draw(t, l) },
+				func(p string) string { augMark++; return fmt.Sprintf("%sa%d", p, augMark) })
+			labels["augment/extras"]++
 		}
 		tag := fmt.Sprintf("a%d%s", i+1, strings.ReplaceAll(from.Name, "-", ""))
 		a.Nodes = augContent(t, set, from, tg, tag)
